@@ -389,10 +389,10 @@ pub fn family_r() -> Vec<Scenario> {
     let mut out = Vec::new();
     // base: cfg -> build.ninja generator; a -> b user chain; c independent;
     // `shared` decides how the generator's extra input relates to user steps.
-    for shared in 0..4usize {
+    for shared in 0..5usize {
         for manifest_name in ["build.ninja", "alt.ninja"] {
             let base = regen_project(manifest_name, shared, 0);
-            for variant in 0..9usize {
+            for variant in 0..11usize {
                 for targets in [vec![], vec!["b".to_string()], vec!["c".to_string()], vec!["newt".to_string()], vec!["a".to_string(), manifest_name.to_string()]] {
                     for touch in [true, false] {
                         for j in [1usize, 3] {
@@ -406,13 +406,28 @@ pub fn family_r() -> Vec<Scenario> {
                             // also dirty two independent user steps of one pool
                             s.edits.push(Edit::Touch("sa".into()));
                             s.edits.push(Edit::Touch("sc".into()));
+                            // Split manifests: the generator writes the fragment.
+                            let gen_file = match &base.fragment {
+                                Some((f, _)) => f.clone(),
+                                None => manifest_name.to_string(),
+                            };
                             s.generators.insert(
-                                manifest_name.to_string(),
+                                gen_file.clone(),
                                 Generator {
-                                    manifest_name: manifest_name.to_string(),
+                                    manifest_name: gen_file,
                                     next,
                                 },
                             );
+                            if shared == 5 {
+                                // the top-level file has its own generator too
+                                s.generators.insert(
+                                    manifest_name.to_string(),
+                                    Generator {
+                                        manifest_name: manifest_name.to_string(),
+                                        next: regen_project(manifest_name, shared, variant),
+                                    },
+                                );
+                            }
                             if variant == 8 {
                                 s.outcomes.insert("GEN".into(), Outcome::Fail);
                             }
@@ -431,9 +446,49 @@ pub fn family_r() -> Vec<Scenario> {
 
 /// Variants: 0 identical, 1 add step newt, 2 remove step c, 3 change command
 /// of a, 4 rewire b to depend on c too, 5 lower pool depth, 6 rename target
-/// b -> newt, 7 add a pool and put c in it, 8 identical (generator fails).
+/// b -> newt, 7 add a pool and put c in it, 8 identical (generator fails),
+/// 9 a new step is inserted before the others (files are renumbered),
+/// 10 the default target changes from b to c.
+/// `shared` 0..=3: how the generator relates to user steps; 4, 5: the
+/// manifest is split: the main file is `build <manifest>: phony frag.ninja`
+/// (4) or a generator ordered after the fragment (5) and includes
+/// frag.ninja, which the generator step writes.
 pub fn regen_project(manifest_name: &str, shared: usize, variant: usize) -> Project {
     let mut p = Project::default();
+    p.defaults = vec![match variant {
+        6 => "newt".to_string(),
+        10 => "c".to_string(),
+        _ => "b".to_string(),
+    }];
+    if shared >= 4 {
+        // Main file: the manifest target and the fragment's generator.
+        let frag = "frag.ninja";
+        if shared == 4 {
+            p.steps.push(Step {
+                outs: vec![manifest_name.to_string()],
+                phony: true,
+                ins: vec![(EdgeKind::Explicit, frag.to_string())],
+                ..Default::default()
+            });
+        } else {
+            p.steps.push(Step {
+                outs: vec![manifest_name.to_string()],
+                cmdline: "TOP".into(),
+                ins: vec![(EdgeKind::Explicit, "top.in".into()), (EdgeKind::OrderOnly, frag.to_string())],
+                ..Default::default()
+            });
+        }
+        p.steps.push(Step {
+            outs: vec![frag.to_string()],
+            cmdline: "GEN".into(),
+            ins: vec![(EdgeKind::Explicit, "gen.in".into())],
+            ..Default::default()
+        });
+        p.fragment = Some((frag.to_string(), 2));
+        p.pools.push(("link".into(), if variant == 5 { 1 } else { 3 }));
+        user_steps(&mut p, variant);
+        return p;
+    }
     p.pools.push(("link".into(), if variant == 5 { 1 } else { 3 }));
     let mut gen = Step {
         outs: vec![manifest_name.to_string()],
@@ -454,6 +509,19 @@ pub fn regen_project(manifest_name: &str, shared: usize, variant: usize) -> Proj
             outs: vec!["cfg".into()],
             cmdline: "CFG".into(),
             ins: vec![(EdgeKind::Explicit, "cfg.in".into())],
+            ..Default::default()
+        });
+    }
+    user_steps(&mut p, variant);
+    p
+}
+
+fn user_steps(p: &mut Project, variant: usize) {
+    if variant == 9 {
+        p.steps.push(Step {
+            outs: vec!["pre".into()],
+            cmdline: "PRE".into(),
+            ins: vec![(EdgeKind::Explicit, "spre".into())],
             ..Default::default()
         });
     }
@@ -496,7 +564,6 @@ pub fn regen_project(manifest_name: &str, shared: usize, variant: usize) -> Proj
             ..Default::default()
         });
     }
-    p
 }
 
 /// S: curated larger shapes.
